@@ -623,6 +623,7 @@ def run(ctx):
             x, y = res[c["id"]], rb[c["id"]]
             if (x["ok"], canon(x.get("v"))) != (y["ok"], canon(y.get("v"))):
                 ctx.divergent.append((b, c["op"], c["src"], 0, canon(x.get("v", x.get("err"))), canon(y.get("v", y.get("err")))))
+    ctx.log("sort cases evaluated on %d builds" % len(BUILDS))
     panics = [c for c in cases if res[c["id"]].get("panic")]
     srecs = []
     for c in cases:
